@@ -194,6 +194,9 @@ def check_value(spec, inp, text, val):
     if t in ('str', 'ssn', 'regex'):
         if type(val) is not str:
             bad = f'expected str, line received {type(val).__name__}'
+        elif t == 'ssn' and not (len(val) == 9 and val.isascii() and val.isdigit()):
+            # what a social security number is does not depend on the implementation: nine decimal digits
+            bad = f'a social security number must be nine (ASCII) digits, line received {val!r}'
     elif t == 'bool':
         if type(val) is not bool:
             bad = f'expected bool, line received {type(val).__name__}'
